@@ -367,6 +367,13 @@ def rule_core(ctx):
     ctx.ob('C03.core', f'{lb.module.name}:list_binop:nested-row-type', not plain and len(typed) >= 2,
            f'list_binop types a nested result row with {plain or typed}: it must be the type of the row itself (type(a[i]) / type(b[i])), '
            f'as in the one-sequence branches', lb.node, lb.module)
+    lu = repo.func('sc3.base.utils:list_unop')
+    usrc = full(lu.node)
+    oku = U.before(usrc, 'if isinstance(a, t_seq):', 'if any((isinstance(i, t_seq) for i in a)):', 'return t((list_unop(op, i, type(i)) for i in a))',
+                   'return t((op(i) for i in a))') and usrc.rstrip().endswith('return op(a)')
+    ctx.ob('C03.core', f'{lu.fq}:one-call-per-channel', oku,
+           'a unary operator over a channel list is applied once per channel, in order (no sharing of results between equal channels: one unit per combination)',
+           lu.node, lu.module)
     we = repo.func('sc3.base.utils:wrap_extend')
     ctx.ob('C03.core', f'{we.module.name}:wrap_extend', full(we.node).endswith('return lst * (n // l) + lst[:n % l]'),
            'wrap_extend must repeat cyclically to length n', we.node, we.module)
